@@ -30,7 +30,9 @@ impl Lowerer<'_, '_> {
         ty: TyRef,
     ) -> Operand {
         let Some(ir_ty) = self.lower_type(ty) else {
-            return IrValue::Bool(true).into();
+            // Zero-sized values are always equal, so `==` is true and `!=`
+            // is false.
+            return IrValue::Bool(!negated).into();
         };
         match ir_ty {
             IrType::Bool
